@@ -103,6 +103,13 @@ SerdesMatches(g, form, s, dc) ==
 SerdesAll(g, form, out, dc) ==
   "serdes" \in DOMAIN out => \A i \in 1..Len(out.serdes) : SerdesMatches(g, form, out.serdes[i], dc)
 
+(* two decodes that wait for one another (the reader of one is fed by the thread of the other): both *)
+(* finish, each with the checked decoder's result                                                    *)
+JudgePipe(e) ==
+  /\ ~e.out.timeout
+  /\ SerdesMatches(e.g, e.form, e.out.a, TLCEval(Decode(e.g, e.form, e.a, TRUE)))
+  /\ SerdesMatches(e.g, e.form, e.out.b, TLCEval(Decode(e.g, e.form, e.b, TRUE)))
+
 JudgeDecode(e) ==
   LET g == e.g
       b == e.bytes
@@ -136,6 +143,12 @@ JudgeEncode(e) ==
   /\ ("p" \in DOMAIN e => e.out.aff = e.p)
   /\ e.out.c = c /\ e.out.u = u
   /\ e.out.c_from_affine = c /\ e.out.u_from_affine = u
+  \* the stream writers of both point types: the same bytes whatever the sink takes per call, an
+  \* error (not a silent prefix) when the sink cannot hold them
+  /\ ("ser" \in DOMAIN e.out => \A k \in 1..Len(e.out.ser) :
+        LET s == e.out.ser[k] IN
+        IF s.kind = "too-small" THEN s.res = "err"
+        ELSE s.res = "ok" /\ s.bytes = (IF s.c THEN c ELSE u))
   /\ Len(e.out.c) = EncLen(g, "c") /\ Len(e.out.u) = EncLen(g, "u")
   /\ e.out.sizes = <<EncLen(g, "c"), EncLen(g, "u")>>
   /\ LET d == TLCEval(Decode(g, "c", c, TRUE)) IN
